@@ -16,7 +16,9 @@
 (* call has returned (request handlers do that); FixQ1 = FALSE is the code   *)
 (* in which the long-running read transaction was bound to that context     *)
 (* (finding Q1, found by the daemon-mode runs; MC_Core_q1.cfg is its        *)
-(* negative control).                                                       *)
+(* negative control).  FixQ2 = FALSE: a checkpoint whose context is         *)
+(* cancelled between releasing the read transaction and the PRAGMA does not *)
+(* get it back (finding Q2; MC_Core_q2.cfg).                                *)
 (* AtomicChk = TRUE disables application steps inside a litestream           *)
 (* checkpoint (used to generate schedules that need no gating hooks).        *)
 (* hz is a history variable naming the shapes of known findings; the as-is   *)
@@ -26,7 +28,7 @@
 EXTENDS Integers, Sequences, FiniteSets, TLC
 
 CONSTANTS MaxPg, InitN, MaxVer, MaxFrames, MaxTx, MaxGen, MaxDown, FixF1, FixF2, FixG1, Modes, AppModes, AtomicChk, WithCrash,
-          ReqCtx, FixQ1    \* litestream calls run under a request-scoped context (cancelled when the call returns) / the read transaction is detached from it
+          ReqCtx, FixQ1, FixQ2    \* litestream calls run under a request-scoped context (cancelled when the call returns) / the read transaction is detached from it
 
 Pages == 1..MaxPg
 SeqPg == 1
@@ -316,6 +318,17 @@ ChkRelease ==
   /\ UNCHANGED <<dbf, dbfN, wal, hdrGen, idxGen, mx, bf, sz, wlock, txn, nextVer, nextGen, nextSt, up, l0, rN, acked, downs, cmode>>
   /\ UNCHANGED <<cvers, spv>>
 
+\* Q2: the context of the call is cancelled while the checkpoint has released the read transaction and not issued the PRAGMA
+\* yet (a sync request timing out): the PRAGMA fails, the deferred re-acquisition ran its query under the same cancelled
+\* context and its error is ignored - no read transaction any more, and nothing takes one until the next checkpoint.
+ChkCtxCancel ==
+  /\ ReqCtx /\ pc = "released"
+  /\ pc' = "idle"
+  /\ wlock' = IF wlock = "ls" THEN "none" ELSE wlock
+  /\ rd' = IF FixQ2 THEN AcquireRead ELSE -1
+  /\ UNCHANGED <<dbf, dbfN, wal, hdrGen, idxGen, mx, bf, sz, txn, nextVer, nextGen, nextSt, up, mem, l0, rN, acked, downs, cmode, ck>>
+  /\ UNCHANGED <<cvers, spv>>
+
 ChkPragma ==
   /\ pc = "released"
   /\ IF hdrGen = idxGen /\ mx > 0 /\ (wlock # "app" \/ cmode = "PASSIVE")
@@ -442,6 +455,7 @@ CkStart(m)      == ChkStart(m) /\ Hist("ls")
 CkBarrier       == ChkBarrier /\ Hist(IF pc' = "idle" THEN "chkerr" ELSE "ls")
 CkRelease       == ChkRelease /\ Hist("ls")
 CkPragma        == ChkPragma /\ Hist("ls")
+CkCtxCancel     == ChkCtxCancel /\ Hist("chkerr")
 CkUnbarrier     == ChkUnbarrier /\ Hist("ls")
 CkBump          == ChkBump /\ Hist(IF pc' = "idle" THEN "chkerr" ELSE "ls")
 CkFinish        == ChkFinish /\ Hist(IF hdrGen # ck.hdr /\ cmode # "PASSIVE" /\ ~(cmode # "TRUNCATE" /\ ck.logN <= ck.pre) /\ wlock # "none" THEN "chkerr" ELSE "ls")
@@ -461,7 +475,7 @@ Next ==
   \/ \E m \in AppModes : AppCkpt(m)
   \/ Bump \/ Sync \/ SyncAndWait
   \/ \E m \in Modes : CkStart(m)
-  \/ CkBarrier \/ CkRelease \/ CkPragma \/ CkUnbarrier \/ CkBump \/ CkFinish
+  \/ CkBarrier \/ CkRelease \/ CkPragma \/ CkCtxCancel \/ CkUnbarrier \/ CkBump \/ CkFinish
   \/ OpenSame \/ OpenNew \/ Close \/ Crash \/ CtxCancel
 
 Spec == Init /\ [][Next]_vars
